@@ -7,6 +7,7 @@ CONSTANTS
   Acts <- AllActs
   MaxCalls = 3
   MaxWrites = 2
+  Spares <- SparesMC
 VIEW view
 INVARIANTS TypeOK RoundTrip
 PROPERTIES Canonical EofOK
